@@ -187,6 +187,9 @@ def replay_main(path):
     repo = os.environ['VERIF_REPO']
     if repo not in sys.path:
         sys.path.insert(0, repo)
+    ds = os.path.join(ROOT, 'vkit', 'shim_ds')
+    if ds not in sys.path:
+        sys.path.insert(0, ds)   # DeepSpeed stand-in (DeepSpeed itself is not installable here)
     import warnings
     warnings.simplefilter('ignore')
     import torch  # real torch
